@@ -157,3 +157,25 @@ reg.lemma('law-transitive', [ltk(A_, B_), ltk(B_, C_)], ltk(A_, C_))
 reg.lemma('law-le-is-lt-or-eq', [], z3.Not(ltk(B_, A_)) == z3.Or(ltk(A_, B_), eqk(A_, B_)))
 reg.lemma('law-equal-keys-hash-equal', [eqk(A_, B_)], H(n1, m1) == H(n2, m2))
 reg.lemma('law-eq-transitive', [eqk(A_, B_), eqk(B_, C_)], eqk(A_, C_))
+
+
+# ------------------------------------------------------------------ InterfaceBase.__init__ (twin of the C IB__init__, contracts/C12_c.py)
+FIELDS['__ibmodule__'] = OBJ
+reg.fields['__ibmodule__'] = OBJ
+FIELDS['$name_obj'] = z3.ArraySort(Obj, Obj)
+reg.fields['$name_obj'] = z3.ArraySort(Obj, Obj)
+
+
+def _set_name_obj(ex, tgt, st, recv, v):
+    """self.__name__ = name: the name as given (None when not given) -- kept in a ghost field of its own because the order
+    contracts above type __name__ as str"""
+    st.heap.set('$name_obj', z3.Store(st.heap.get('$name_obj'), recv.t, box(v)))
+
+
+reg.add(Proc(I + 'InterfaceBase.__init__', [('self', OBJ), ('name', OBJ), ('module', OBJ)], source='interface.py:InterfaceBase.__init__',
+             defaults={'name': VNONE, 'module': VNONE}, setattr_={'__name__': _set_name_obj}, modifies=['$name_obj', '__ibmodule__'],
+             ensures=lambda c: [('name-and-module-are-the-arguments-None-when-not-given', z3.And(
+                 c.h('$name_obj')[c.a.self] == c.a.name, c.h('__ibmodule__')[c.a.self] == c.a.module)),
+                 ('no-other-object-is-touched', z3.ForAll([z3.Const('bi_o', Obj)], z3.Implies(z3.Const('bi_o', Obj) != c.a.self, z3.And(
+                     c.h('$name_obj')[z3.Const('bi_o', Obj)] == c.h0('$name_obj')[z3.Const('bi_o', Obj)],
+                     c.h('__ibmodule__')[z3.Const('bi_o', Obj)] == c.h0('__ibmodule__')[z3.Const('bi_o', Obj)]))))]))
